@@ -367,6 +367,10 @@ func script(tp *tape.Tape, render bool) (string, map[string]string) {
 			"y.d2": "style: {\n  fill: honeydew\n}\nlabel: from y\n",
 		}
 		g.sb.WriteString("...@x\nyy: @y\n")
+		if !render && tp.Chance(1, 3, "gen.import.odd") {
+			// errors of the import machinery: a key the file does not have, a missing file
+			g.sb.WriteString("zz: @x.no.such.key\nzy: @y.imported1\nzx: @nowhere\n")
+		}
 	}
 	return g.sb.String(), files
 }
